@@ -457,6 +457,7 @@ class HookedOSUtils(OSUtils):
         self.temps = []
 
     def _label(self, path):
+        path = os.path.abspath(path)  # the caller may have named the file relative to the working directory
         if path in self.labels:
             return self.labels[path]
         base, ext = os.path.splitext(path)
@@ -476,9 +477,9 @@ class HookedOSUtils(OSUtils):
 
     def get_temp_filename(self, filename):
         t = super().get_temp_filename(filename)
-        self.labels[t] = self._label(filename)
-        self.temps.append(t)
-        self.w.log.add('fs.tempname', label=self._label(filename), path=t)
+        self.labels[os.path.abspath(t)] = self._label(filename)
+        self.temps.append(os.path.abspath(t))
+        self.w.log.add('fs.tempname', label=self._label(filename), path=os.path.abspath(t))
         return t
 
     def open(self, filename, mode):
@@ -490,6 +491,7 @@ class HookedOSUtils(OSUtils):
         if f is not None:
             raise_for(f, d, key, 'before', oserr=True)
         fobj = open(filename, mode)
+        filename = os.path.abspath(filename)
         self.w.log.add('fs.open', label=label, path=filename, mode=mode)
         f = d.point(key, 'after')
         if f is not None:
@@ -506,7 +508,7 @@ class HookedOSUtils(OSUtils):
         key = d.occurrence(f'{label}/fs:remove')
         d.point(key, 'before')
         super().remove_file(filename)
-        self.w.log.add('fs.remove', label=label, path=filename)
+        self.w.log.add('fs.remove', label=label, path=os.path.abspath(filename))
         d.point(key, 'after')
 
     def rename_file(self, current_filename, new_filename):
@@ -516,9 +518,10 @@ class HookedOSUtils(OSUtils):
         f = d.point(key, 'before')
         if f is not None:
             raise_for(f, d, key, 'before', oserr=True)
-        self.w.log.add('fs.rename.begin', label=label, src=current_filename, dst=new_filename)
+        a_src, a_dst = os.path.abspath(current_filename), os.path.abspath(new_filename)
+        self.w.log.add('fs.rename.begin', label=label, src=a_src, dst=a_dst)
         super().rename_file(current_filename, new_filename)
-        self.w.log.add('fs.rename', label=label, src=current_filename, dst=new_filename)
+        self.w.log.add('fs.rename', label=label, src=a_src, dst=a_dst)
         f = d.point(key, 'after')
         if f is not None:
             raise_for(f, d, key, 'after', oserr=True)
